@@ -45,7 +45,9 @@ if [ -z "$PHONY" ]; then
     if [ -n "$OPT" ]; then if [ $orc = 0 ] && [ -e "$RV_TOP/$OPT" ]; then echo "$OPT=$(cksum < "$RV_TOP/$OPT")"; else echo "$OPT=unavailable"; fi; fi
     if [ -n "$WATCH" ]; then if [ -e "$RV_TOP/$WATCH" ]; then echo "$WATCH=$(cksum < "$RV_TOP/$WATCH")"; else echo "$WATCH=absent"; fi; fi
   } > "$3"
-  [ -z "$STAMP" ] || redo-stamp < "$3"
+  if [ -n "$STAMP" ]; then
+    if [ -n "$STAMPPIPE" ]; then { head -n 1 "$3"; sleep 0.03; tail -n +2 "$3"; } | redo-stamp; else redo-stamp < "$3"; fi
+  fi
   if [ -n "$LINKOUT" ]; then mv "$3" "$1.ldata"; ln -s "$(basename "$1").ldata" "$3"; fi
 fi
 if [ -n "$WATCH" ] && [ -e "$RV_TOP/$WATCH.during" ]; then mv "$RV_TOP/$WATCH.during" "$RV_TOP/$WATCH"; fi
@@ -202,7 +204,7 @@ class Program:
         t = self.targets[name]
         lines = ["NAME='%s'" % name, "DEPS='%s'" % ' '.join(t['deps'])]
         for k, var in (('dyn', 'DYN'), ('stamp', 'STAMP'), ('always', 'ALWAYS'), ('head', 'HEAD'),
-                       ('phony', 'PHONY'), ('split', 'SPLIT'), ('alias', 'ALIAS'), ('linkout', 'LINKOUT'), ('scribble', 'SCRIBBLE')):
+                       ('phony', 'PHONY'), ('split', 'SPLIT'), ('alias', 'ALIAS'), ('linkout', 'LINKOUT'), ('scribble', 'SCRIBBLE'), ('stamppipe', 'STAMPPIPE')):
             lines.append("%s=%s" % (var, '1' if t.get(k) else ''))
         lines.append("FLAG=%s" % ('1' if t.get('flag') is not None else ''))
         lines.append("WATCH='%s'" % (t.get('watch') or ''))
